@@ -185,7 +185,7 @@ Proof. exact (@NodeA.C06_timeout n cid c). Qed.
 Theorem C06_cer_ignored_unless_connected n cid m :
   (forall c, get_conn n cid = Some c -> c_state c <> SConnected) ->
   recv_cer n cid m =
-  (match get_conn n cid with Some _ => drop_origin n (m_hbh m) (m_e2e m) | None => n end, []).
+  (match get_conn n cid with Some _ => drop_origin n cid (m_hbh m) (m_e2e m) | None => n end, []).
 Proof. exact (@NodeA.C06_cer_ignored_unless_connected n cid m). Qed.
 
 (* freshness of connection numbers is an invariant of step (it holds for a node without connections) *)
